@@ -47,7 +47,7 @@ ASSUMPTIONS = [
 ]
 TIERS = {
     "quick": {"shards": 16, "cases": 900, "timeout": 600},
-    "thorough": {"shards": 16, "cases": 27000, "timeout": 7200},
+    "thorough": {"shards": 16, "cases": 81000, "timeout": 7200},
 }
 FLOORS = {
     "quick": {
